@@ -36,47 +36,53 @@ type trFunc struct {
 	state     []string // "name:LeanType": package-level variables the function reads/writes (threaded as parameters and
 	// returned after the results), or "recv" for a receiver the method mutates (returned after the results)
 	maps []string // identifiers that are Go maps (indexing is a lookup with the zero value as default)
+	loopTypes []string // when set: the k-th `for cond {}` loop's condition and body become top-level definitions
+	// `<name>_cond<k>` / `<name>_body<k>` over the given Lean state type (so that the tie can state facts about them)
 	fuel string   // Lean term (over the parameters) bounding the iterations of the function's `for cond {}` loops; the special
 	// value "guards" translates only the leading `if cond { return ..., err }` statements of a constructor (its parameter
 	// validation): the result is the error of the first guard that fires, none when all pass
 }
 
 var trList = []trFunc{
-	{"CodeMatcher", "matcher", "Matcher.Match", "Matcher.Match", true, false, nil, nil, ""},
-	{"CodeMatcher", "matcher", "Matcher.PreMatch", "Matcher.PreMatch", true, false, nil, nil, ""},
-	{"CodeMatcher", "matcher", "Matcher.MatchRegexAndExpand", "Matcher.MatchRegexAndExpand", true, false, nil, nil, ""},
-	{"CodeAgg", "aggregator", "Aggregator.AddMaybe", "Aggregator.AddMaybe", false, false, nil, nil, ""},
-	{"CodeFilters", "destination", "Destination.Match", "Destination.Match", true, false, nil, nil, ""},
-	{"CodeFilters", "route", "baseRoute.Match", "baseRoute.Match", true, false, nil, nil, ""},
-	{"CodeRoute", "route", "metricName", "metricName", true, false, nil, nil, ""},
-	{"CodeRoute", "route", "SendAllMatch.Dispatch", "SendAllMatch.Dispatch", false, false, nil, nil, ""},
-	{"CodeRoute", "route", "SendFirstMatch.Dispatch", "SendFirstMatch.Dispatch", false, false, nil, nil, ""},
-	{"CodeHasher", "route", "ConsistentHasher.GetDestinationIndex", "ConsistentHasher.GetDestinationIndex", true, true, nil, nil, ""},
-	{"CodeHasher", "route", "ConsistentHashing.Dispatch", "ConsistentHashing.Dispatch", false, true, nil, nil, ""},
-	{"CodeTable", "table", "Table.Dispatch", "Table.Dispatch", false, true, nil, nil, ""},
-	{"CodeTable", "table", "Table.DispatchAggregate", "Table.DispatchAggregate", false, false, nil, nil, ""},
-	{"CodeOrdered", "validate", "Ordered", "validate_Ordered", true, false, []string{"m:MapII", "h:Hasher64"}, []string{"m"}, ""},
-	{"CodeKeepSafe", "destination", "keepSafe.Add", "keepSafe.Add", true, false, []string{"recv"}, nil, ""},
-	{"CodeKeepSafe", "destination", "keepSafe.GetAll", "keepSafe.GetAll", true, false, []string{"recv"}, nil, ""},
-	{"CodeRewriter", "rewriter", "RW.Do", "RW.Do", true, false, nil, nil, ""},
-	{"CodeRewriter", "rewriter", "New", "rewriter_New", true, true, nil, nil, ""},
-	{"CodeTableOps", "table", "Table.AddRoute", "Table.AddRoute", true, false, []string{"recv"}, nil, ""},
-	{"CodeTableOps", "table", "Table.AddBlacklist", "Table.AddBlacklist", true, false, []string{"recv"}, nil, ""},
-	{"CodeTableOps", "table", "Table.AddAggregator", "Table.AddAggregator", true, false, []string{"recv"}, nil, ""},
-	{"CodeTableOps", "table", "Table.AddRewriter", "Table.AddRewriter", true, false, []string{"recv"}, nil, ""},
-	{"CodeTableOps", "table", "Table.DelBlacklist", "Table.DelBlacklist", true, false, []string{"recv"}, nil, ""},
-	{"CodeTableOps", "table", "Table.DelRewriter", "Table.DelRewriter", true, false, []string{"recv"}, nil, ""},
-	{"CodeTableOps", "table", "Table.DelAggregator", "Table.DelAggregator", false, false, []string{"recv"}, nil, ""},
-	{"CodeTableOps", "table", "Table.DelRoute", "Table.DelRoute", false, false, []string{"recv"}, nil, ""},
-	{"CodeGuards", "destination", "New", "destination_New_guards", true, false, nil, nil, "guards"},
-	{"CodeGuards", "route", "NewGrafanaNet", "NewGrafanaNet_guards", true, false, nil, nil, "guards"},
-	{"CodeCfg", "cfg", "InitAggregation", "InitAggregation", false, true, nil, nil, ""},
-	{"CodeCfg", "cfg", "InitBlacklist", "InitBlacklist", false, true, nil, nil, ""},
-	{"CodeCfg", "cfg", "InitRewrite", "InitRewrite", false, true, nil, nil, ""},
-	{"CodeReadDest", "imperatives", "readDestination", "readDestination", true, true, []string{"param:s"}, nil, "(s.toks.length + 2)"},
+	{"CodeMatcher", "matcher", "Matcher.Match", "Matcher.Match", true, false, nil, nil, nil, ""},
+	{"CodeMatcher", "matcher", "Matcher.PreMatch", "Matcher.PreMatch", true, false, nil, nil, nil, ""},
+	{"CodeMatcher", "matcher", "Matcher.MatchRegexAndExpand", "Matcher.MatchRegexAndExpand", true, false, nil, nil, nil, ""},
+	{"CodeAgg", "aggregator", "Aggregator.AddMaybe", "Aggregator.AddMaybe", false, false, nil, nil, nil, ""},
+	{"CodeFilters", "destination", "Destination.Match", "Destination.Match", true, false, nil, nil, nil, ""},
+	{"CodeFilters", "route", "baseRoute.Match", "baseRoute.Match", true, false, nil, nil, nil, ""},
+	{"CodeRoute", "route", "metricName", "metricName", true, false, nil, nil, nil, ""},
+	{"CodeRoute", "route", "SendAllMatch.Dispatch", "SendAllMatch.Dispatch", false, false, nil, nil, nil, ""},
+	{"CodeRoute", "route", "SendFirstMatch.Dispatch", "SendFirstMatch.Dispatch", false, false, nil, nil, nil, ""},
+	{"CodeHasher", "route", "ConsistentHasher.GetDestinationIndex", "ConsistentHasher.GetDestinationIndex", true, true, nil, nil, nil, ""},
+	{"CodeHasher", "route", "ConsistentHashing.Dispatch", "ConsistentHashing.Dispatch", false, true, nil, nil, nil, ""},
+	{"CodeTable", "table", "Table.Dispatch", "Table.Dispatch", false, true, nil, nil, nil, ""},
+	{"CodeTable", "table", "Table.DispatchAggregate", "Table.DispatchAggregate", false, false, nil, nil, nil, ""},
+	{"CodeOrdered", "validate", "Ordered", "validate_Ordered", true, false, []string{"m:MapII", "h:Hasher64"}, []string{"m"}, nil, ""},
+	{"CodeKeepSafe", "destination", "keepSafe.Add", "keepSafe.Add", true, false, []string{"recv"}, nil, nil, ""},
+	{"CodeKeepSafe", "destination", "keepSafe.GetAll", "keepSafe.GetAll", true, false, []string{"recv"}, nil, nil, ""},
+	{"CodeRewriter", "rewriter", "RW.Do", "RW.Do", true, false, nil, nil, nil, ""},
+	{"CodeRewriter", "rewriter", "New", "rewriter_New", true, true, nil, nil, nil, ""},
+	{"CodeTableOps", "table", "Table.AddRoute", "Table.AddRoute", true, false, []string{"recv"}, nil, nil, ""},
+	{"CodeTableOps", "table", "Table.AddBlacklist", "Table.AddBlacklist", true, false, []string{"recv"}, nil, nil, ""},
+	{"CodeTableOps", "table", "Table.AddAggregator", "Table.AddAggregator", true, false, []string{"recv"}, nil, nil, ""},
+	{"CodeTableOps", "table", "Table.AddRewriter", "Table.AddRewriter", true, false, []string{"recv"}, nil, nil, ""},
+	{"CodeTableOps", "table", "Table.DelBlacklist", "Table.DelBlacklist", true, false, []string{"recv"}, nil, nil, ""},
+	{"CodeTableOps", "table", "Table.DelRewriter", "Table.DelRewriter", true, false, []string{"recv"}, nil, nil, ""},
+	{"CodeTableOps", "table", "Table.DelAggregator", "Table.DelAggregator", false, false, []string{"recv"}, nil, nil, ""},
+	{"CodeTableOps", "table", "Table.DelRoute", "Table.DelRoute", false, false, []string{"recv"}, nil, nil, ""},
+	{"CodeGuards", "destination", "New", "destination_New_guards", true, false, nil, nil, nil, "guards"},
+	{"CodeGuards", "route", "NewGrafanaNet", "NewGrafanaNet_guards", true, false, nil, nil, nil, "guards"},
+	{"CodeCfg", "cfg", "InitAggregation", "InitAggregation", false, true, nil, nil, nil, ""},
+	{"CodeCfg", "cfg", "InitBlacklist", "InitBlacklist", false, true, nil, nil, nil, ""},
+	{"CodeCfg", "cfg", "InitRewrite", "InitRewrite", false, true, nil, nil, nil, ""},
+	{"CodeReadAgg", "imperatives", "readAddAgg", "readAddAgg", false, true, []string{"param:s"}, nil, []string{"Crng.CodeSpecAgg.T1", "Crng.CodeSpecAgg.T2"}, "(s.toks.length + 2)"},
+	{"CodeReadDest", "imperatives", "readDestination", "readDestination", true, true, []string{"param:s"}, nil, nil, "(s.toks.length + 2)"},
 }
 
 // generated modules that import another generated module (a translated function calling a translated method)
+// hand-written modules (state types of named loops) a generated module imports
+var trSpecImports = map[string][]string{"CodeReadAgg": {"Crng.CodeSpecAgg"}}
+
 var trImports = map[string][]string{"CodeAgg": {"CodeMatcher"}, "CodeFilters": {"CodeMatcher"}}
 
 var leanTypes = map[string]string{
@@ -156,6 +162,9 @@ type trCtx struct {
 	declared map[string]bool
 	nres     int
 	njoin    int
+	preDefs  *[]string
+	nloop    *int
+	rtFull   string
 }
 
 func (c *trCtx) isMap(n string) bool {
@@ -566,6 +575,49 @@ func assignedIn(list []ast.Stmt, out map[string]bool) {
 	}
 }
 
+// objects advanced by pop / mutator methods count as assigned
+func assignedWithPops(list []ast.Stmt, out map[string]bool) {
+	assignedIn(list, out)
+	for _, st := range list {
+		if st == nil {
+			continue
+		}
+		ast.Inspect(st, func(n ast.Node) bool {
+			if call, ok := n.(*ast.CallExpr); ok {
+				if se, ok := call.Fun.(*ast.SelectorExpr); ok && (popMethods[se.Sel.Name] || mutatorMethods[se.Sel.Name]) {
+					if id, ok := se.X.(*ast.Ident); ok {
+						out[id.Name] = true
+					}
+				}
+			}
+			return true
+		})
+	}
+}
+
+// a block of plain assignments (no return / branch / effects / nested control flow)
+func assignOnly(list []ast.Stmt) bool {
+	for _, st := range list {
+		switch x := st.(type) {
+		case *ast.AssignStmt:
+			if x.Tok == token.DEFINE {
+				return false
+			}
+			for _, r := range x.Rhs {
+				if call, ok := r.(*ast.CallExpr); ok {
+					if se, ok := call.Fun.(*ast.SelectorExpr); ok && spliceMethods[se.Sel.Name] {
+						return false
+					}
+				}
+			}
+		case *ast.IncDecStmt:
+		default:
+			return false
+		}
+	}
+	return true
+}
+
 func (c *trCtx) clone() *trCtx {
 	d := *c
 	d.declared = map[string]bool{}
@@ -824,6 +876,31 @@ func (c *trCtx) stmts(list []ast.Stmt, ind string) string {
 		thenList := x.Body.List
 		c1, c2 := c.clone(), c.clone()
 		var t1, t2 string
+		// branches that only assign: the statement is the tuple of the assigned variables, chosen by the condition
+		if len(rest) > 0 && len(thenList) > 0 && assignOnly(thenList) && assignOnly(elseList) {
+			as := map[string]bool{}
+			assignedWithPops(thenList, as)
+			assignedWithPops(elseList, as)
+			var vs []string
+			for n := range as {
+				if c.declared[n] {
+					vs = append(vs, n)
+				}
+			}
+			sort.Strings(vs)
+			if len(vs) > 0 {
+				var vl []string
+				for _, n := range vs {
+					vl = append(vl, lid(n))
+				}
+				tup := tuple(vl)
+				ca, cb := c.clone(), c.clone()
+				ca.fall, cb.fall = tup, tup
+				ta := ca.stmts(thenList, ind+"    ")
+				tb := cb.stmts(elseList, ind+"    ")
+				return "let " + tup + " :=" + nl + "  if " + cond + " then" + nl + "    " + ta + nl + "  else" + nl + "    " + tb + nl + c.stmts(rest, ind)
+			}
+		}
 		// join point: when a branch falls through into a non-trivial rest and no variable assigned in the branches is
 		// read afterwards, the rest is bound once as a thunk; otherwise it is duplicated into the branches
 		pre := ""
@@ -988,6 +1065,11 @@ func (c *trCtx) forStmt(x *ast.ForStmt, rest []ast.Stmt, ind string) string {
 		y.Init = nil
 		return c.stmts(append([]ast.Stmt{x.Init, &y}, rest...), ind)
 	}
+	loopNo := 0
+	if c.f.loopTypes != nil {
+		loopNo = *c.nloop // numbered in source order (before the rest, which may hold further loops, is translated)
+		*c.nloop = loopNo + 1
+	}
 	bodyList := x.Body.List
 	as := map[string]bool{}
 	assignedIn(bodyList, as)
@@ -1054,6 +1136,69 @@ func (c *trCtx) forStmt(x *ast.ForStmt, rest []ast.Stmt, ind string) string {
 		loop = "whileR"
 	}
 	head := loop + " " + c.f.fuel + " (fun " + state + " => " + cond + ") (fun " + state + " =>" + nl + "    " + body + ") " + state
+	if c.f.loopTypes != nil {
+		k := loopNo
+		if k >= len(c.f.loopTypes) {
+			fail("more loops than declared state types")
+		}
+		T := c.f.loopTypes[k]
+		// the body may only use the state, the Env and package-level names
+		inState := map[string]bool{}
+		for _, n := range mv {
+			inState[n] = true
+		}
+		free := map[string]bool{}
+		scan := func(n ast.Node) {
+			ast.Inspect(n, func(m ast.Node) bool {
+				if id, ok := m.(*ast.Ident); ok && c.declared[id.Name] && !inState[id.Name] {
+					free[id.Name] = true
+				}
+				return true
+			})
+		}
+		for _, st := range bodyList {
+			scan(st)
+		}
+		if x.Cond != nil {
+			scan(x.Cond)
+		}
+		if x.Post != nil {
+			scan(x.Post)
+		}
+		// names declared inside the body shadow outer ones; a conservative check: refuse outer names that are read
+		for n := range free {
+			declaredInside := false
+			for _, st := range bodyList {
+				ast.Inspect(st, func(m ast.Node) bool {
+					if as, ok := m.(*ast.AssignStmt); ok && as.Tok == token.DEFINE {
+						for _, l := range as.Lhs {
+							if id, ok := l.(*ast.Ident); ok && id.Name == n {
+								declaredInside = true
+							}
+						}
+					}
+					return true
+				})
+			}
+			if !declaredInside {
+				fail("loop %d reads the outer variable %s (named loops may only use their state)", k+1, n)
+			}
+		}
+		base := strings.Replace(c.f.lean, ".", "_", -1)
+		envp := ""
+		enva := ""
+		if c.f.env {
+			envp, enva = " (E : Env)", " E"
+		}
+		stepT := "Step (" + T + ") (" + c.rtFull + ")"
+		if !c.f.pure {
+			stepT = "Res (" + stepT + ")"
+		}
+		*c.preDefs = append(*c.preDefs,
+			fmt.Sprintf("def %s_cond%d%s : %s → Bool :=\n  fun %s => %s\n", base, k+1, envp, T, state, cond),
+			fmt.Sprintf("def %s_body%d%s : %s → %s :=\n  fun %s =>\n    %s\n", base, k+1, envp, T, stepT, state, strings.Replace(body, nl+"    ", "\n    ", -1)))
+		head = fmt.Sprintf("%s %s (%s_cond%d%s) (%s_body%d%s) %s", loop, c.f.fuel, base, k+1, enva, base, k+1, enva, state)
+	}
 	if c.f.pure {
 		return "match " + head + " with" + nl + "  | Out.ret r_ => " + outerRet("r_") + nl + "  | Out.done " + state + " =>" + nl + "    " + after
 	}
@@ -1165,6 +1310,9 @@ func translateAll(pkgs map[string]*pkgInfo) {
 			for _, im := range trImports[f.file] {
 				b.WriteString("import Crng.Gen." + im + "\n")
 			}
+			for _, im := range trSpecImports[f.file] {
+				b.WriteString("import " + im + "\n")
+			}
 			b.WriteString("/-! GENERATED by /verif/extract/translate.go from /repo's working tree. Do not edit. -/\nset_option linter.unusedVariables false\nnamespace Crng.Gen.Code\nopen Crng.Code\n\n")
 		}
 		p := pkgs[f.pkg]
@@ -1208,7 +1356,9 @@ func translateAll(pkgs map[string]*pkgInfo) {
 }
 
 func translateFunc(f trFunc, fd *ast.FuncDecl, pkgFns map[string]string) string {
-	c := &trCtx{f: f, pkgFns: pkgFns, declared: map[string]bool{}}
+	var pre []string
+	nl0 := 0
+	c := &trCtx{f: f, pkgFns: pkgFns, declared: map[string]bool{}, preDefs: &pre, nloop: &nl0}
 	var params []string
 	if f.env {
 		params = append(params, "(E : Env)")
@@ -1325,6 +1475,10 @@ func translateFunc(f trFunc, fd *ast.FuncDecl, pkgFns map[string]string) string 
 		}
 		rt = "Res (" + rt + ")"
 	}
+	c.rtFull = strings.TrimSuffix(strings.TrimPrefix(rt, "Res ("), ")")
+	if f.pure {
+		c.rtFull = rt
+	}
 	stmtsList := fd.Body.List
 	if f.fuel == "guards" {
 		// the leading guards only; the value is the error alone
@@ -1353,5 +1507,5 @@ func translateFunc(f trFunc, fd *ast.FuncDecl, pkgFns map[string]string) string 
 	if strings.Contains(name, ".") {
 		name = "_root_.Crng.Code." + name
 	}
-	return "def " + name + " " + strings.Join(params, " ") + " : " + rt + " :=\n  " + body + "\n"
+	return strings.Join(pre, "\n") + "def " + name + " " + strings.Join(params, " ") + " : " + rt + " :=\n  " + body + "\n"
 }
